@@ -523,6 +523,18 @@ StopFreezesOutput == [][outcome # "running" => out' = out]_vars
 Terminated == outcome # "running"
 DoneIsFinal == [][outcome # "running" => FALSE]_vars
 
+\* JqEval refines the integer abstraction JqFramesInd, whose inductive invariant Apalache proves
+\* for EVERY call-depth limit (tools/apalache_frames.sh): every step of this machine is a step
+\* (or a stuttering step) of the abstraction under the mapping below.
+Abs == INSTANCE JqFramesInd WITH
+         L <- CallLimit,
+         depth <- Len(frames) - 1,
+         calls <- Cardinality({i \in 1..Len(ctl) : ctl[i].t = "callk"}),
+         matches <- Cardinality({i \in 1..Len(ctl) : ctl[i].t = "matchk"}),
+         sig <- IF sig \in {"break", "continue"} THEN "none" ELSE sig,
+         at <- IF ctl = <<>> THEN "driver" ELSE "body"
+RefinesFrames == [][Abs!Next]_Abs!absvars
+
 TypeOK ==
   /\ sig \in {"none", "break", "continue", "return", "next", "exit", "fault"}
   /\ outcome \in {"running", "ok", "runtime"}
